@@ -1,5 +1,5 @@
-CONSTANTS PageM <- Page43 Formats = {"RGBA32_LE", "PAL8", "YUV420"} Strides = {"exact", "plus5"} MaxDraws = 3 Clip = TRUE
+CONSTANTS Pages <- SmallPages Formats = {"RGBA32_LE", "PAL8", "YUV420"} Strides = {"exact", "plus5"} MaxDraws = 3 Clip = "region"
 SPECIFICATION Spec
-INVARIANTS Faithful
+INVARIANTS Faithful MarginUntouched
 PROPERTIES Frame NothingIfUnsupported ImplementsPost
 CHECK_DEADLOCK FALSE
